@@ -823,12 +823,21 @@ def bgmm_helpers(ck):
         ref = float(ref_kl_wishart(a1, V1, a2, V2))
         ck.count(("dklw", a1, a2, V1.tobytes(), V2.tobytes()), bucket="dkl_wishart:dim%d" % dim)
         repw = {"a1": a1, "B1": np.linalg.inv(V1).tolist(), "a2": a2, "B2": np.linalg.inv(V2).tolist()}
+        # the arithmetic translated from the source, with the implementation's own oracle values
+        from scipy.special import gammaln as _gl
+        B1m, B2m = np.linalg.inv(V1), np.linalg.inv(V2)
+        orc = [a1, a2, float(dim), math.log(max(bgmm.detsh(B1m), 1e-15)), math.log(max(bgmm.detsh(B2m), 1e-15)), math.log(2),
+               dim * (dim - 1) * math.log(np.pi) / 4, float(sum(_gl((a1 - i) / 2) for i in range(dim))),
+               float(sum(_gl((a2 - i) / 2) for i in range(dim))), float(sum(psi((a1 - i) / 2) for i in range(dim))),
+               float(sum(psi((a2 - i) / 2) for i in range(dim))), float(np.trace(np.dot(B2m, np.linalg.inv(B1m))))]
+        terms.append("qclose %s (src_dkl_wishart %s) %s" % (cq(F(1, 10 ** 9) * max(1, int(abs(got)) + 1)), " ".join(cq(v) for v in orc), cq(got)))
+        meta.append(("dkl_wishart", {"a1": a1, "a2": a2, "B1": B1m.tolist(), "B2": B2m.tolist(), "oracle_values": orc}))
         bad = abs(got - ref) > 1e-8 * max(1.0, abs(ref))
         if dim == 1 and not bad:
-            t = np.linspace(1e-9, 60 * a1 * V1[0, 0] + 40, 400001)
-            l1 = st.gamma(a1 / 2, scale=2 * V1[0, 0]).logpdf(t)
-            l2 = st.gamma(a2 / 2, scale=2 * V2[0, 0]).logpdf(t)
-            qd = quad(np.exp(l1) * (l1 - l2), t)
+            u = np.linspace(1e-7, math.sqrt(60 * a1 * V1[0, 0] + 40), 400001)   # x = u^2: the density may be singular at 0
+            l1 = st.gamma(a1 / 2, scale=2 * V1[0, 0]).logpdf(u * u)
+            l2 = st.gamma(a2 / 2, scale=2 * V2[0, 0]).logpdf(u * u)
+            qd = quad(np.exp(l1) * (l1 - l2) * 2 * u, u)
             bad = abs(got - qd) > 1e-4 * max(1.0, abs(qd))
         if bad:
             ck.fail("dkl_wishart/not-the-kl-divergence",
